@@ -74,6 +74,9 @@ var registry = []Harness{
 	{Prop: "C20", Pkg: "neofs", Func: "VerifC20NeoFSConfig", Link: []string{"neofs", "processing"},
 		Quick: [][]int{{1, 2, 1}, {2, 2, 2}, {0, 1, 0}, {6, 2, 6}}, Thorough: [][]int{{1, 2, 1}, {2, 2, 2}, {0, 1, 0}, {6, 2, 6}, {1, 1, 2}, {0, 0, 0}, {2, 6, 2}, {6, 6, 6}, {11, 11, 11}, {21, 2, 21}},
 		Bound: "NeoFS contract with Notary; two setConfig with fully symbolic keys of lengths (param0,param1) and 2-byte values; config(kq); listConfig (plus the two keys configured at deployment)"},
+	{Prop: "C20", Pkg: "audit", Func: "VerifC20Audit", Link: []string{"audit"},
+		Quick: [][]int{{1, 1, 1}, {2, 1, 1}, {0, 1, 1}, {1, 2, 2}, {3, 2, 2}}, Thorough: allTriples(4),
+		Bound: "two audit results put by two Inner Ring members: well-formed V2 header (version length 0), epoch = two symbolic low bytes (classes given by params: 0 / 1..127 / 128..32767 / 32768..65535), symbolic 32-byte container ids; list, get, listByEpoch/CID/Node with symbolic query epoch"},
 	{Prop: "C20", Pkg: "neofsid", Func: "VerifC20NeoFSID", Link: []string{"neofsid"},
 		Bound: "addKey(o1,[k1,k2]) addKey(o2,[k3]) removeKey(o3,[k4]) with symbolic 25-byte owners and 33-byte keys free to coincide; key(oq) for symbolic oq"},
 }
